@@ -65,6 +65,12 @@ func (search *Search) StartIterativeDeepening(startTime, endTime time.Time, maxD
 		bestLine, startTime, endTime)
 	copyBestLine(bestLine, search.bestLineAtDepth[0])
 	verifSync("iter", 1, 0)
+	if len(bestLine.moves) == 0 {
+		// the position is already checkmate or stalemate: there is no line and no move to print
+		fmt.Println("info depth 0 score", formatScore(bestScore))
+		fmt.Println("bestmove 0000")
+		return
+	}
 
 	if !time.Now().After(endTime) && !search.interrupted && !oneLegalMove {
 		for currDepth := 2; currDepth <= maxDepth; currDepth++ {
